@@ -44,6 +44,9 @@ pub struct WorldCfg {
     pub peers: Vec<PeerCfg>,
     /// Broadcasts from the manager are held back per handler until a `Release` event.
     pub gated: bool,
+    /// Pieces for which a leftover of an interrupted earlier run lies in the download directory:
+    /// a file under the piece's name, of the right length, zero-filled (never verified).
+    pub stale: Vec<usize>,
 }
 
 #[derive(Clone, Debug, PartialEq)]
@@ -143,6 +146,9 @@ impl World {
         for &i in &cfg.have {
             cfg.torrent.store_piece(dir, i);
             session.verif_set_status(i, Status::Have);
+        }
+        for &i in &cfg.stale {
+            std::fs::write(dir.join(cfg.torrent.piece_file(i)), vec![0u8; cfg.torrent.pieces[i].len()]).expect("cannot write stale piece file");
         }
         let harness_rx = session.verif_subscribe();
         let start = {
@@ -448,6 +454,7 @@ impl World {
                         let stem = rel.trim_end_matches(".piece");
                         match t.hashes.iter().position(|x| *x == h) {
                             Some(i) if stem == core::hex(&h) => out.push(format!("piece:{}", i)),
+                            _ if data.iter().all(|b| *b == 0) && t.hashes.iter().any(|x| core::hex(x) == stem) => out.push(format!("leftover:{}", rel)),
                             _ => out.push(format!("BADPIECE:{}", rel)),
                         }
                     } else {
